@@ -1040,4 +1040,142 @@ theorem GC.unionWith_G (a b : GC) (ha : a.wfG = true) (hb : b.wfG = true) :
   obtain ⟨r, h1, h2, h3⟩ := GC.unionWith_exact algG rfl a b ((Pc_wfG a).mpr ha) ((Pc_wfG b).mpr hb)
   exact ⟨r, h1, (Pc_wfG r).mp h2, fun v => h3 _ ⟨v, rfl⟩⟩
 
+/-! ### `invert` -/
+
+theorem Op.inv_in_x (v : String) : Atom.invert ⟨v, .in_, true⟩ = .error .value := rfl
+theorem Op.inv_nc_x (v : String) : Atom.invert ⟨v, .nc, true⟩ = .error .value := rfl
+
+/-- inverting an atom complements its single-valued meaning (all four operators) -/
+theorem Atom.invert_den {a b : Atom} (h : a.invert = .ok b) (v : String) : b.den v = !a.den v := by
+  obtain ⟨av, o, x⟩ := a
+  cases o <;> cases x <;>
+    simp only [Op.inv_eq, Op.inv_ne, Op.inv_in, Op.inv_nc, Op.inv_in_x, Op.inv_nc_x, Except.ok.injEq,
+      reduceCtorEq] at h <;> subst h <;> simp [Atom.den, bne]
+
+theorem mkMulti_eq_ok {x : Bool} {cs : List Atom} {m : GS} (h : mkMulti x cs = .ok m) : m = .multi x cs := by
+  unfold mkMulti at h
+  split at h
+  · cases h
+  · cases h; rfl
+
+section
+variable (f : Atom → Bool) (Q : Atom → Prop) (hf : ∀ a b, Q a → a.invert = .ok b → f b = !f a)
+include hf
+
+theorem mapE_invert_sem : ∀ (cs l : List Atom), (∀ c ∈ cs, Q c) → mapE Atom.invert cs = .ok l →
+    (l.map GS.atom).any (fun c => c.sem f) = !cs.all f := by
+  intro cs
+  induction cs with
+  | nil => intro l _ h; cases h; rfl
+  | cons c cs ih =>
+    intro l hq h
+    simp only [mapE] at h
+    cases hc : c.invert with
+    | error e => simp [hc] at h
+    | ok b =>
+      cases hm : mapE Atom.invert cs with
+      | error e => simp [hc, hm] at h
+      | ok bs =>
+        simp only [hc, hm, Except.ok.injEq] at h
+        subst h
+        have := ih bs (fun c hc => hq c (by simp [hc])) hm
+        have e := hf c b (hq c (by simp)) hc
+        rw [List.map_cons, List.any_cons, List.all_cons, this]
+        simp only [GS.sem, e]
+        cases f c <;> simp
+
+def GS.atomsQ (Q : Atom → Prop) : GS → Prop
+  | .atom a => Q a
+  | .multi _ cs => ∀ c ∈ cs, Q c
+  | _ => True
+
+theorem GS.invert_sem (c : GS) (hq : c.atomsQ Q) (r : GC) (h : c.invert = .ok r) : r.sem f = !c.sem f := by
+  cases c with
+  | any => cases h; rfl
+  | empty => cases h; rfl
+  | atom a =>
+    simp only [GS.invert] at h
+    cases ha : a.invert with
+    | error e => simp [ha] at h
+    | ok b =>
+      simp only [ha, Except.ok.injEq] at h; subst h
+      simp [GC.sem, GS.sem, hf a b hq ha]
+  | multi x cs =>
+    simp only [GS.invert] at h
+    cases hm : mapE Atom.invert cs with
+    | error e => simp [hm] at h
+    | ok l =>
+      simp only [hm, Except.ok.injEq] at h; subst h
+      simp only [GC.sem, GS.sem]
+      exact mapE_invert_sem f Q hf cs l hq hm
+
+theorem unionInvert_aux : ∀ (ms : List GS) (inv : List GC) (as : List Atom), (∀ m ∈ ms, m.atomsQ Q) →
+    mapE GS.invert ms = .ok inv → atomsOf? inv = some as → as.all f = !ms.any (fun c => c.sem f) := by
+  intro ms
+  induction ms with
+  | nil => intro inv as _ h1 h2; cases h1; simp [atomsOf?] at h2; subst h2; rfl
+  | cons m ms ih =>
+    intro inv as hq h1 h2
+    simp only [mapE] at h1
+    cases hm : m.invert with
+    | error e => simp [hm] at h1
+    | ok i =>
+      cases hms : mapE GS.invert ms with
+      | error e => simp [hm, hms] at h1
+      | ok inv' =>
+        simp only [hm, hms, Except.ok.injEq] at h1
+        subst h1
+        match i, hm, h2 with
+        | .s (.atom a), hm, h2 =>
+          simp only [atomsOf?] at h2
+          cases ha : atomsOf? inv' with
+          | none => simp [ha] at h2
+          | some as' =>
+            simp only [ha, Option.map_some, Option.some.injEq] at h2
+            subst h2
+            have h3 := ih inv' as' (fun m hm => hq m (by simp [hm])) hms ha
+            have h4 : f a = !m.sem f := GS.invert_sem f Q hf m (hq m (by simp)) _ hm
+            rw [List.all_cons, List.any_cons, h3, h4]
+            cases m.sem f <;> simp
+        | .s .any, _, h2 => simp [atomsOf?] at h2
+        | .s .empty, _, h2 => simp [atomsOf?] at h2
+        | .s (.multi _ _), _, h2 => simp [atomsOf?] at h2
+        | .union _, _, h2 => simp [atomsOf?] at h2
+
+def GC.atomsQ (Q : Atom → Prop) : GC → Prop
+  | .s c => c.atomsQ Q
+  | .union ms => ∀ m ∈ ms, m.atomsQ Q
+
+/-- inversion, where it returns, is the complement (for any atom meaning that `Atom.invert` complements) -/
+theorem GC.invert_sem (c : GC) (hq : c.atomsQ Q) (r : GC) (h : c.invert = .ok r) : r.sem f = !c.sem f := by
+  cases c with
+  | s c => exact GS.invert_sem f Q hf c hq r h
+  | union ms =>
+    simp only [GC.invert, unionInvert] at h
+    cases hm : mapE GS.invert ms with
+    | error e => simp [hm] at h
+    | ok inv =>
+      simp only [hm] at h
+      cases ha : atomsOf? inv with
+      | none => simp [ha] at h
+      | some as =>
+        simp only [ha] at h
+        cases hmk : mkMulti (as.any fun a => a.x) as with
+        | error e => simp [hmk] at h
+        | ok m =>
+          have hm' := mkMulti_eq_ok hmk
+          subst hm'
+          simp only [hmk, Except.ok.injEq] at h; subst h
+          exact unionInvert_aux f Q hf ms inv as hq hm ha
+end
+
+theorem GC.atomsQ_true (c : GC) : c.atomsQ (fun _ => True) := by
+  cases c with
+  | s c => cases c <;> simp [GC.atomsQ, GS.atomsQ]
+  | union ms => intro m _; cases m <;> simp [GS.atomsQ]
+
+theorem GC.invert_G (c r : GC) (h : c.invert = .ok r) (v : String) : r.den v = !c.den v :=
+  GC.invert_sem (fun a => a.den v) (fun _ => True) (fun a b _ hab => Atom.invert_den hab v) c
+    (GC.atomsQ_true c) r h
+
 end Poetry.Generic
